@@ -59,6 +59,10 @@ class SyncGraphNodeExecutor:
             _, mode, error_handling = map_config
             # Use original param names for map_over (inner graph expects these)
             original_params = node._original_map_params()
+            # Values bound on the inner graph are resolved inside it: they are not
+            # broadcast inputs and bypass clone
+            bound = node.graph.inputs.bound
+            inner_inputs = {k: v for k, v in inner_inputs.items() if not (k in bound and v is bound[k])}
             results = self.runner.map(
                 node.graph,
                 inner_inputs,
